@@ -64,6 +64,12 @@ fn main() {
     engine::install_panic_hook();
     engine::start_watchdog();
     let code = match (prop.as_str(), &replay) {
+        ("VALID-PAYLOAD", _) => {
+            // development aid: the observable state the C20 harness serves, as JSON on stdout
+            use std::io::Write;
+            std::io::stdout().write_all(&vharness::c20::valid_payload()).unwrap();
+            0
+        }
         ("CORPUS", _) => {
             // seed corpora for the libFuzzer targets, written under /verif/target/fuzz-corpus
             let base = std::path::PathBuf::from(std::env::var("VERIF_FUZZ_CORPUS").unwrap_or_else(|_| "/verif/target/fuzz-corpus".into()));
